@@ -894,7 +894,7 @@ impl TryFrom<Parse> for BytesMut {
             + name.len()
             + query.len()
             + 2
-            + 4 * parse.num_params as usize;
+            + 4 * parse.param_types.len(); // what is written below, whatever count the client announced
 
         bytes.put_u8(parse.code as u8);
         bytes.put_i32(len as i32);
